@@ -23,8 +23,8 @@ exec 9>"$ROOT/.lock"
 flock 9
 if [ -f "$OUT/.done" ]; then touch "$OUT/.done"; echo "$OUT"; exit 0; fi
 rm -rf "$OUT"; mkdir -p "$OUT/obj"
-# prune old builds (keep the 3 most recent)
-ls -1dt "$ROOT"/*-* 2>/dev/null | tail -n +4 | xargs -r rm -rf
+# prune old builds (keep the 3 most recent; parallel mutant runs raise VERIF_KEEP_BUILDS)
+ls -1dt "$ROOT"/*-* 2>/dev/null | tail -n +"${VERIF_KEEP_BUILDS:-4}" | xargs -r rm -rf
 {
   for f in "$REPO"/src/*.cpp "$REPO"/external/clipper/clipper.cpp; do
     o="$OUT/obj/lib_$(basename "${f%.cpp}").o"
